@@ -160,7 +160,7 @@ func runC06(c *Ctx) {
 		same := false
 		for _, in := range retB.Instrs {
 			if ret, ok := in.(*ssa.Return); ok && len(ret.Results) == 1 {
-				if _, f, base, ok := loadedField(ret.Results[0]); ok && f == "clusterName" {
+				if _, f, base, ok := loadedField(unspill(ret, 0)); ok && f == "clusterName" {
 					if _, _, wbase, ok2 := loadedField(stripConvNum(w)); ok2 && base == wbase {
 						same = true
 					}
@@ -375,7 +375,7 @@ func runC06R2(c *Ctx) {
 	// returned total is the accumulator
 	for _, in := range instrsWhere(fn, isReturn) {
 		ret := in.(*ssa.Return)
-		c.Check("C06.R2", fk+":return-total", ret.Pos(), len(ret.Results) == 2 && ret.Results[1] == ssa.Value(acc), "returns the accumulated total", "returned total is not the accumulated sum")
+		c.Check("C06.R2", fk+":return-total", ret.Pos(), len(ret.Results) == 2 && unspill(ret, 1) == ssa.Value(acc), "returns the accumulated total", "returned total is not the accumulated sum")
 	}
 	// who-may-write: weightedClusters/totalClusterWeight stored only from the two results of one getWeightedClusterEntry call
 	writers := 0
@@ -671,7 +671,7 @@ func c06WeightsReachScheduler(c *Ctx) {
 			})
 			// `true` is returned only outside the loop, `false` only on the difference edge
 			for _, in := range instrsWhere(fn, isReturn) {
-				b, isC := constBool(in.(*ssa.Return).Results[0])
+				b, isC := constBool(unspill(in.(*ssa.Return), 0))
 				if !isC {
 					good, why = false, "a non-constant result"
 					continue
@@ -709,7 +709,7 @@ func c06WeightsReachScheduler(c *Ctx) {
 	} else {
 		good := false
 		for _, in := range instrsWhere(fn, isReturn) {
-			call, ok := in.(*ssa.Return).Results[0].(*ssa.Call)
+			call, ok := unspill(in.(*ssa.Return), 0).(*ssa.Call)
 			if !ok || call.Common().StaticCallee() == nil || call.Common().StaticCallee().Name() != "fixHostWeight" {
 				continue
 			}
@@ -730,7 +730,7 @@ func c06WeightsReachScheduler(c *Ctx) {
 	} else {
 		good := false
 		for _, in := range instrsWhere(fn, isReturn) {
-			if in.(*ssa.Return).Results[0] != ssa.Value(fn.Params[0]) {
+			if unspill(in.(*ssa.Return), 0) != ssa.Value(fn.Params[0]) {
 				continue
 			}
 			lo, hi := false, false
@@ -960,7 +960,7 @@ func c06SlowStartFloor(c *Ctx) {
 	var closureFloored func(cl *ssa.Function, d int) (bool, string)
 	closureFloored = func(cl *ssa.Function, d int) (bool, string) {
 		for _, in := range instrsWhere(cl, isReturn) {
-			if ok, why := floored(cl, in.(*ssa.Return).Results[0], in.Block(), d+1); !ok {
+			if ok, why := floored(cl, unspill(in.(*ssa.Return), 0), in.Block(), d+1); !ok {
 				return false, why
 			}
 		}
@@ -1020,12 +1020,12 @@ func c06SlowStartFloor(c *Ctx) {
 				if ctor := mk.Common().StaticCallee(); ctor != nil && len(ctor.Blocks) > 0 {
 					n := 0
 					for _, in := range instrsWhere(ctor, isReturn) {
-						if mc, isMC := in.(*ssa.Return).Results[0].(*ssa.MakeClosure); isMC {
+						if mc, isMC := unspill(in.(*ssa.Return), 0).(*ssa.MakeClosure); isMC {
 							n++
 							if ok2, why := closureFloored(mc.Fn.(*ssa.Function), d); !ok2 {
 								return false, why + " (closure returned by " + ctor.Name() + ")"
 							}
-						} else if f2, isFn := in.(*ssa.Return).Results[0].(*ssa.Function); isFn && len(f2.Blocks) > 0 {
+						} else if f2, isFn := unspill(in.(*ssa.Return), 0).(*ssa.Function); isFn && len(f2.Blocks) > 0 {
 							n++
 							if ok2, why := closureFloored(f2, d); !ok2 {
 								return false, why + " (function returned by " + ctor.Name() + ")"
@@ -1049,7 +1049,7 @@ func c06SlowStartFloor(c *Ctx) {
 			continue
 		}
 		for _, in := range instrsWhere(cl, isReturn) {
-			v := in.(*ssa.Return).Results[0]
+			v := unspill(in.(*ssa.Return), 0)
 			bo, ok := v.(*ssa.BinOp)
 			if !ok || bo.Op != token.MUL {
 				continue // the plain host weight
